@@ -41,14 +41,18 @@ class Stats:
     def record(self, spec, out):
         from vlib.case import spec_hash, jsonable
 
-        self.evaluations += 1
+        info0 = out.get("info")
+        self.evaluations += int(info0.get("n_cases", 1)) if isinstance(info0, dict) else 1
         for c in out["classes"]:
             self.classes[c] += 1
         if out["rejected"]:
             self.rejected += 1
             self.classes["rejected"] += 1
         if out["nontrivial"] and out["ok"]:
-            self.nontrivial.add(out["key"] if out["key"] is not None else spec_hash(spec))
+            if isinstance(out["key"], list):
+                self.nontrivial.update(out["key"])
+            else:
+                self.nontrivial.add(out["key"] if out["key"] is not None else spec_hash(spec))
             k = len(self.nontrivial)
             if k in (7, 40, 120) or (k < 7 and len(self.samples) < 1):
                 if k == 7:
